@@ -186,3 +186,11 @@ Proof.
     apply in_map_iff. exists e. split; [reflexivity|exact He]. }
   specialize (H Hin). apply andb_prop in H. tauto.
 Qed.
+
+(* a decoder that inverts the encoder makes the encoder injective on the domain *)
+Lemma encode_asc_injective a b :
+  canonical a = true -> canonical b = true -> encode_asc a = encode_asc b -> a = b.
+Proof.
+  intros Ha Hb E. pose proof (asc_roundtrip a Ha) as Ra. pose proof (asc_roundtrip b Hb) as Rb.
+  rewrite E in Ra. rewrite Ra in Rb. now injection Rb.
+Qed.
